@@ -1,7 +1,7 @@
 (* Correspondence harness for PDP (C01-C06), both values of force_start_at_depot: the model against recorded traces
    of PDPEnv, and the exact specification evaluated on the implementation's own episodes. *)
 From Coq Require Import ZArith List Bool Lia Arith.
-From RL4CO Require Import Base.Num Base.EnvSig Spec.Tours Env.TourCore Env.PDP Env.PDPProofs Harness.HEnv Harness.HTour.
+From RL4CO Require Import Base.Num Base.EnvSig Spec.Tours Env.TourCore Env.PDP Env.PDPProofs Harness.HEnv Harness.HTour Harness.HBook.
 Import ListNotations.
 Open Scope Z_scope.
 
@@ -64,3 +64,12 @@ Definition check_C06 (c : pdp_case) : Z :=
   if negb (c_complete c) then 0 else verdict_codes (c_inst c) (trace_actions (c_trace c)) (c_checker c).
 Definition check_C06_sol (c : (pdp_inst * pdp_obs) * list nat * bool) : Z :=
   match c with ((i, _), acts, verdict) => verdict_codes i acts verdict end.
+
+(* ---------------------------------------------------------------- bookkeeping after EVERY step (C02 / C04, see Harness/HBook.v;
+   check_C04's code 21 compares the final values only).  Keys, in this order: i (= number of steps taken), current_node
+   (= the action just taken), available (bit j = node j) *)
+Definition book_obs (s : pdp_st) : list Z := [Z.of_nat (pcnt s); Z.of_nat (pcur s); bitsZ (pavail s)].
+Definition book_kinds : list nat := [1; 2; 0]%nat.
+Definition pdp_book := ((pdp_inst * pdp_obs) * list Z * list Z * list (nat * list Z))%type.
+Definition check_book (c : pdp_book) : Z :=
+  match c with (i, tols, o0, tr) => book_check PDP (fst i) book_obs book_kinds tols o0 tr end.
